@@ -503,7 +503,8 @@ file_error:
     }
 
     data = xmalloc(sbuf.st_size + 2);
-    nbr = fread(data, sbuf.st_size, 1, file);
+    /* An empty file is a valid (empty) configuration, not a short read. */
+    nbr = sbuf.st_size ? fread(data, sbuf.st_size, 1, file) : 1;
     if (nbr < 1) {
         parse->c_function = "fread";
         parse->c_errno = errno;
